@@ -101,11 +101,17 @@ CHECKS = {
    text="Model checking: Parse(Stringify(v)) = v on JSON-representable v, Stringify(Parse(t)) canonical and idempotent, JParse accepts exactly what the independent acceptor accepts on all enumerated token sequences. Conformance: all token sequences up to length 5/6 over the JSON token vocabulary (accepted and rejected alike), every single-token mutation of valid texts (trailing comma, single quotes, unquoted key, leading zero, lone minus, NaN, Infinity, undefined, control character, bad escape, truncated \\u, lone surrogate escapes), duplicate and __proto__ keys, nesting to 30; value structures of depth <= 3 over a leaf grid incl. non-representable values at every position, cycles of length 1-3: TLC judges parse results structurally (key order), rejection = SyntaxError received by a script catch, stringify text exactly, cycle = catchable TypeError. Quick ~50k judged records.",
    design_ref="DESIGN.md 5/C19, notes/C19.md",
    note="Trusted: TLC, JsJSON as a transcription of ECMA-262 25.5 / RFC 8259; number text through JsConv (shared with C18)."),
+
+ "C08": dict(
+   technique="ObjModel.tla (explicit state machine of the ECMAScript object model: heap, prototype links, accessors, constructors) model-checked by TLC; histories enumerated and simulated by TLC, replayed on the engine with every observation after every step, validated by a total TLC trace specification; call-form x function-kind table judged by TLC",
+   text="Model checking: ObjModel invariants over all histories of the model (acyclic prototype chains, agreement laws between in / hasOwnProperty / keys / for-in / getPrototypeOf / reads, writes and deletes affect only the receiver as a frame condition). Conformance: all histories of length <= 2 over the full operation alphabet (4 712; thorough: 74k of length <= 3 over a core alphabet) plus TLC -simulate walks of depth 12 (384 / 2 880) and seeded random histories, each step followed by a battery of 112 observations (read, in, own-test, keys/values/entries, for-in, instanceof, typeof, getPrototypeOf) on every object: 14k steps / 656k observations judged in quick; the trace specification replays every history through the reference and the as-is model, is total (records the failing clause, adopts, continues) and evaluates ObjModel's invariants on every state. The product call form {method, plain, call, apply, bind, new, arrow} x function kind (63 cells) + new-return rules (27) + constructor chains is specified as a table in C08.tla and judged cell by cell (this, arguments, length, name).",
+   design_ref="DESIGN.md 5/C08, notes/C08.md",
+   note="Trusted: TLC, ObjModel as a transcription of ECMA-262 ordinary object semantics under DESIGN 4.4 (everything writable/enumerable/configurable, insertion order, no boxing). Eight structural defects are recorded findings with exact as-is rules (functions are not objects, enumeration skips accessors, arrow this/arguments, name inference, native function properties, new on non-constructors, constructor enumerable)."),
 }
 NOT_APPLICABLE = {}
 # checks whose quick tier the lead has run green on the current /repo HEAD (three seeds); the others stay listed under
 # not_applicable ("under construction") until verified
-ENABLED = ["C01", "C02", "C03", "C04", "C05", "C06", "C07", "C09", "C10", "C11", "C12", "C13", "C14", "C15", "C16", "C17", "C18", "C19", "C20"]
+ENABLED = ["C01", "C02", "C03", "C04", "C05", "C06", "C07", "C08", "C09", "C10", "C11", "C12", "C13", "C14", "C15", "C16", "C17", "C18", "C19", "C20"]
 ALL = ["C%02d" % i for i in range(1, 21)]
 PENDING_REASON = "check under construction in this round: not yet claimed (no evidence produced); see DESIGN.md section 8"
 
